@@ -84,13 +84,15 @@ package netpoll
 //@ iface Poll.Control
 //@   params operator event
 //@   results err
-//@   note epoll_ctl: touches no connection state; registering marks the slot in use
+//@   note epoll_ctl: touches no connection state; registering marks the slot in use; its errors are kernel errnos
+//@   ensures err != nil ==> typeis(err, syscall.Errno) && err#val >= 1 && err#val < 256
 //@   modifies FDOperator.state
 
 //@ func (*FDOperator).Control
 //@   property C05 C10
 //@   requires op.poll != nil && op.detached >= 0 && op.detached < 2147483647
 //@   ensures event == 3 && old(op.detached) >= 1 ==> result == nil
+//@   ensures result != nil ==> typeis(result, syscall.Errno) && result#val >= 1 && result#val < 256
 //@   ensures event == 3 ==> op.detached == old(op.detached) + 1
 //@   ensures event != 3 ==> op.detached == old(op.detached)
 //@   modifies op.detached, FDOperator.state
@@ -157,6 +159,8 @@ package netpoll
 //@   ensures !c.heldP ==> tkReleased && tkSawClosing && (tkClosingVal != 0 ==> tkTriedAfterClosing) && (onRequest != nil ==> tkSawLen && (tkLenVal > 0 ==> tkTriedAfterLen))
 //@   onpanic (!c.heldP || c.sealed_heldP) && cbRuns <= 1
 //@   modifies world, c.heldP, c.heldC, c.sealed_heldP, cbRuns, tkReleased, tkSawClosing, tkClosingVal, tkTriedAfterClosing, tkSawLen, tkLenVal, tkTriedAfterLen, tkLenZeroSeen
+//@   ghost after call invoke.Len#2: tkLenZeroSeen = result == 0
+//@   ghost before call (*connection).closeCallback#1: assert closedBy == 1 || onRequest == nil || tkLenZeroSeen
 //@   ghost after call (*locker).unlock#2: tkReleased = true; tkSawClosing = false; tkTriedAfterClosing = false; tkSawLen = false; tkTriedAfterLen = false
 //@   ghost after call (*locker).status#2: tkSawClosing = tkReleased; tkClosingVal = result
 //@   ghost after call (*locker).lock#1: tkTriedAfterClosing = tkSawClosing
@@ -350,7 +354,7 @@ package netpoll
 //@   trusted raw system call through unsafe pointers (sys_sendmsg_linux.go); assumed kernel contract
 //@   requires len(ivs) >= len(bs)
 //@   ensures n > 0 ==> len(bs) > 0 && n <= vpos[len(bs) - 1] + len(bs[len(bs) - 1]) - vpos[0]
-//@   ensures err != nil ==> n <= 0
+//@   ensures err != nil ==> n <= 0 && typeis(err, syscall.Errno) && err#val >= 1 && err#val < 256
 //@   ensures memframe([]byte, bs)
 //@   modifies mem:[]byte, mem:syscall.Iovec
 
@@ -367,4 +371,115 @@ package netpoll
 //@   requires c.outputBarrier != nil && len(c.outputBarrier.bs) == 32 && len(c.outputBarrier.ivs) == 32 && c.outputBarrier.bs#arr != c.outputBuffer.caches#arr && c.operator.poll != nil && c.operator.detached >= 0 && c.operator.detached < 2147483000
 //@   ensures c.heldF && wf(c.outputBuffer) && (c.writeTimer != nil ==> c.writeTimer.tstate == 0)
 //@   ensures rpos(c.outputBuffer) >= old(rpos(c.outputBuffer)) && rpos(c.outputBuffer) <= old(fpos(c.outputBuffer)) && fpos(c.outputBuffer) == old(fpos(c.outputBuffer))
+//@   ensures !errkind(result, ErrConcurrentAccess)
+//@   modifies anything
+
+// ---- poller callbacks of a connection (C04 C06 C07 C08) ----
+//@ ghost global iaPublished bool
+//@ ghost global iaWrs int
+//@ ghost global iaTriggered bool
+//@ ghost global iaNeed bool
+//@ pred sizesok(c *connection) = c.bookSize >= 1 && c.bookSize <= 16777216 && c.maxSize >= 1 && c.maxSize <= 8388608
+
+//@ func (*connection).inputs
+//@   property C04
+//@   requires connok(c) && wf(c.inputBuffer) && nopend(c.inputBuffer) && sizesok(c) && len(vs) >= 1 && vs#arr != c.inputBuffer.caches#arr
+//@   ensures len(rs) == 1 && rs#arr == vs#arr && rs#base == vs#base && len(rs[0]) >= 1 && len(rs[0]) <= c.bookSize && booked(c.inputBuffer, len(rs[0])) && others(c.inputBuffer) && samepool()
+//@   ensures c.inputBuffer.length == old(c.inputBuffer.length) && rpos(c.inputBuffer) == old(rpos(c.inputBuffer)) && fpos(c.inputBuffer) == old(fpos(c.inputBuffer))
+//@   ensures rs[0]#arr == c.inputBuffer.write.buf#arr && rs[0]#base == c.inputBuffer.write.buf#base + len(c.inputBuffer.write.buf) && c.inputBuffer.write.mode & 1 == 0
+//@   modifies c.inputBuffer.write, linkBufferNode.next, linkBufferNode.malloc, linkBufferNode.own, linkBufferNode.ord, linkBufferNode.sp, pool, blknode, cacheown, cacheidx, cachesof, peekown, mem:[]byte
+
+//@ func (*connection).inputAck
+//@   property C04 C06 C07
+//@   requires cinv(c) && sizesok(c) && !c.heldP && !c.heldC && !c.sealed_heldP
+//@   requires booked(c.inputBuffer, c.inputBuffer.write.malloc - len(c.inputBuffer.write.buf)) && n <= c.inputBuffer.write.malloc - len(c.inputBuffer.write.buf)
+//@   threadlocal !iaPublished && !iaTriggered && iaNeed
+//@   rely connection.state: now >= was && now <= 2
+//@   ensures err == nil && sizesok(c) && wf(c.inputBuffer) && nopend(c.inputBuffer)
+//@   ensures n > 0 ==> c.inputBuffer.length == old(c.inputBuffer.length) + n && fpos(c.inputBuffer) == old(fpos(c.inputBuffer)) + n && rpos(c.inputBuffer) == old(rpos(c.inputBuffer))
+//@   ensures n <= 0 ==> c.inputBuffer.length == old(c.inputBuffer.length) && fpos(c.inputBuffer) == old(fpos(c.inputBuffer)) && rpos(c.inputBuffer) == old(rpos(c.inputBuffer))
+//@   ensures !c.heldP && !c.heldC
+//@   ensures n > 0 && iaNeed && c.inputBuffer.length >= iaWrs ==> iaTriggered
+//@   modifies c.bookSize, c.maxSize, c.inputBuffer.flush, c.inputBuffer.length, linkBufferNode.malloc, linkBufferNode.buf, locker.keychain, c.heldP, c.heldC, iaPublished, iaWrs, iaTriggered, iaNeed
+//@   ghost after call (*connection).onRequest#1: iaNeed = result
+//@   ghost after call (*UnsafeLinkBuffer).bookAck#2: iaPublished = true
+//@   ghost before call (*connection).onRequest#1: assert iaPublished
+//@   ghost before call atomic.LoadInt64#1: assert iaPublished
+//@   ghost after call atomic.LoadInt64#1: iaWrs = result
+//@   ghost (*connection).triggerRead/before send readTrigger#1: iaTriggered = true
+
+//@ func (*connection).rw2r
+//@   property C08
+//@   requires connok(c) && c.operator.poll != nil && c.operator.detached >= 0 && c.operator.detached < 2147483000 && wfEmptySeen
+//@   modifies FDOperator.state, c.operator.detached
+
+//@ func (*connection).outputs
+//@   property C04 C08
+//@   requires connok(c) && wf(c.outputBuffer) && c.operator.poll != nil && c.operator.detached >= 0 && c.operator.detached < 2147483000 && len(vs) > 0
+//@   ensures wf(c.outputBuffer) && rpos(c.outputBuffer) == old(rpos(c.outputBuffer)) && c.outputBuffer.length == old(c.outputBuffer.length)
+//@   ensures len(rs) > 0 ==> c.outputBuffer.length > 0 && vpos[0] == rpos(c.outputBuffer) && (forall k int {vnode[k]}{rs[k]#len}{rs[k]#arr} :: 0 <= k && k < len(rs) ==> vsentry(c.outputBuffer, rs, k))
+//@   modifies FDOperator.state, c.operator.detached, linkBufferNode.mode, mem:[]byte, vnode, vpos, wfEmptySeen
+//@   ghost after call (*UnsafeLinkBuffer).IsEmpty#1: wfEmptySeen = result
+
+//@ func (*connection).outputAck
+//@   property C04 C08
+//@   requires connok(c) && wf(c.outputBuffer) && c.operator.poll != nil && c.operator.detached >= 0 && c.operator.detached < 2147483000 && n <= c.outputBuffer.length
+//@   ensures err == nil && wf(c.outputBuffer) && (n > 0 ==> rpos(c.outputBuffer) == old(rpos(c.outputBuffer)) + n && c.outputBuffer.length == old(c.outputBuffer.length) - n)
+//@   ensures n <= 0 ==> rpos(c.outputBuffer) == old(rpos(c.outputBuffer)) && c.outputBuffer.length == old(c.outputBuffer.length)
+//@   modifies anything
+//@   ghost after call (*UnsafeLinkBuffer).IsEmpty#1: wfEmptySeen = result
+
+// ---- public writer / reader API (C08 C12) ----
+// what a caller of the public API may rely on: the connection object is initialised and its buffers are either well formed or closed
+//@ pred bufsok(c *connection) = (wf(c.inputBuffer) && nopend(c.inputBuffer) || closedbuf(c.inputBuffer)) && (wf(c.outputBuffer) || closedbuf(c.outputBuffer))
+//@ pred flushok(c *connection) = c.outputBarrier != nil && len(c.outputBarrier.bs) == 32 && len(c.outputBarrier.ivs) == 32 && c.outputBarrier.bs#arr != c.outputBuffer.caches#arr
+//@     && c.operator.poll != nil && c.operator.detached >= 0 && c.operator.detached < 2147483000 && (c.writeTimer != nil ==> c.writeTimer.tstate == 0)
+
+//@ func (*connection).Flush
+//@   property C08 C12
+//@   requires connok(c) && !c.heldF && (c.keychain[closing] == 0 ==> wf(c.outputBuffer) && flushok(c))
+//@   rely locker.keychain[closing]: (was != 0 ==> now != 0) && now >= 0 && now <= 2
+//@   ensures !c.heldF
+//@   ensures old(c.keychain[closing]) != 0 ==> errkind(result, ErrConnClosed) && unchanged(UnsafeLinkBuffer.length, UnsafeLinkBuffer.mallocSize, UnsafeLinkBuffer.read, UnsafeLinkBuffer.flush, UnsafeLinkBuffer.write, linkBufferNode.off, linkBufferNode.buf, linkBufferNode.malloc)
+//@   ensures errkind(result, ErrConcurrentAccess) ==> unchanged(UnsafeLinkBuffer.length, UnsafeLinkBuffer.mallocSize, UnsafeLinkBuffer.read, UnsafeLinkBuffer.flush, UnsafeLinkBuffer.write, linkBufferNode.off, linkBufferNode.buf, linkBufferNode.malloc)
+//@   modifies anything
+
+//@ func (*connection).Write
+//@   property C08 C12
+//@   requires connok(c) && !c.heldF && (c.keychain[closing] == 0 ==> wf(c.outputBuffer) && flushok(c))
+//@   rely locker.keychain[closing]: (was != 0 ==> now != 0) && now >= 0 && now <= 2
+//@   ensures !c.heldF
+//@   ensures old(c.keychain[closing]) != 0 ==> n == 0 && errkind(err, ErrConnClosed) && unchanged(UnsafeLinkBuffer.length, UnsafeLinkBuffer.mallocSize, UnsafeLinkBuffer.read, UnsafeLinkBuffer.flush, UnsafeLinkBuffer.write, linkBufferNode.off, linkBufferNode.buf, linkBufferNode.malloc)
+//@   ensures errkind(err, ErrConcurrentAccess) ==> n == 0 && unchanged(UnsafeLinkBuffer.length, UnsafeLinkBuffer.mallocSize, UnsafeLinkBuffer.read, UnsafeLinkBuffer.flush, UnsafeLinkBuffer.write, linkBufferNode.off, linkBufferNode.buf, linkBufferNode.malloc)
+//@   modifies anything
+
+//@ func (*connection).Malloc
+//@   property C12
+//@   requires connok(c) && (c.keychain[closing] == 0 ==> wf(c.outputBuffer))
+//@   rely locker.keychain[closing]: (was != 0 ==> now != 0) && now >= 0 && now <= 2
+//@   ensures old(c.keychain[closing]) != 0 ==> buf == nil && errkind(err, ErrConnClosed) && unchanged(UnsafeLinkBuffer.mallocSize, UnsafeLinkBuffer.write, linkBufferNode.malloc, linkBufferNode.next)
+//@   modifies anything
+//@ func (*connection).MallocAck
+//@   property C12
+//@   requires connok(c) && (c.keychain[closing] == 0 ==> wf(c.outputBuffer) && n <= c.outputBuffer.mallocSize)
+//@   rely locker.keychain[closing]: (was != 0 ==> now != 0) && now >= 0 && now <= 2
+//@   ensures old(c.keychain[closing]) != 0 ==> errkind(err, ErrConnClosed) && unchanged(UnsafeLinkBuffer.mallocSize, UnsafeLinkBuffer.write, linkBufferNode.malloc, linkBufferNode.buf)
+//@   modifies anything
+//@ func (*connection).WriteBinary
+//@   property C12
+//@   requires connok(c) && (c.keychain[closing] == 0 ==> wf(c.outputBuffer))
+//@   rely locker.keychain[closing]: (was != 0 ==> now != 0) && now >= 0 && now <= 2
+//@   ensures old(c.keychain[closing]) != 0 ==> n == 0 && errkind(err, ErrConnClosed) && unchanged(UnsafeLinkBuffer.mallocSize, UnsafeLinkBuffer.write, linkBufferNode.malloc, linkBufferNode.next, linkBufferNode.buf)
+//@   modifies anything
+//@ func (*connection).WriteString
+//@   property C12
+//@   requires connok(c) && (c.keychain[closing] == 0 ==> wf(c.outputBuffer))
+//@   rely locker.keychain[closing]: (was != 0 ==> now != 0) && now >= 0 && now <= 2
+//@   ensures old(c.keychain[closing]) != 0 ==> n == 0 && errkind(err, ErrConnClosed) && unchanged(UnsafeLinkBuffer.mallocSize, UnsafeLinkBuffer.write, linkBufferNode.malloc, linkBufferNode.next, linkBufferNode.buf)
+//@   modifies anything
+//@ func (*connection).WriteByte
+//@   property C12
+//@   requires connok(c) && (c.keychain[closing] == 0 ==> wf(c.outputBuffer))
+//@   rely locker.keychain[closing]: (was != 0 ==> now != 0) && now >= 0 && now <= 2
+//@   ensures old(c.keychain[closing]) != 0 ==> errkind(err, ErrConnClosed) && unchanged(UnsafeLinkBuffer.mallocSize, UnsafeLinkBuffer.write, linkBufferNode.malloc, linkBufferNode.next)
 //@   modifies anything
